@@ -124,7 +124,11 @@ struct PoolCase
         }
         size_t off = (uint8_t *)q - zone->p;
         if (off % e) o.fail("cell offset " + s(off) + " not a multiple of elemsz");
-        if ((uintptr_t)q % alignof(void *)) o.fail("cell misaligned");
+        // cells are aligned for their use when the element size allows it; for an
+        // element size that is not a multiple of the pointer size (caller's choice) only
+        // the in-zone / non-overlap / capacity clauses are meaningful
+        if (e % alignof(void *) == 0 && (uintptr_t)q % alignof(void *)) o.fail("cell misaligned");
+        if (e % alignof(void *)) o.tag("elemsz-not-pointer-multiple");
         for (auto &kv : live)
             if (off < kv.first + e && kv.first < off + e) o.fail("cell " + s(off) + " overlaps live cell " + s(kv.first));
         fill(off);
@@ -1058,6 +1062,12 @@ static void gen(rng &r, const std::string &tier)
     {
         gen_pool_case(r, i % 2, 8 * (size_t)r.range(1, 8), (size_t)r.range(1, 33));
     }
+    // element sizes that are not a multiple of the pointer size (the link is then stored
+    // misaligned, which the host tolerates): arena and capacity clauses still apply
+    for (size_t e : {12, 20, 28, 36, 44})
+        for (size_t cap : {1, 3, 4, 7})
+            if (th || (e / 4 + cap + g_seed) % 3 == 0)
+                gen_pool_case(r, (e / 4 + cap) % 2, e, cap);
     for (auto &k : sop_kinds)
         for (int i = 0; i < (th ? 4 : 1); i++) gen_sop_case(r, k);
     // ---- heap: exhaustive short histories over a 4-size alphabet
